@@ -24,26 +24,26 @@ type WriteOptions struct{}
 type TransactionOptions struct{}
 type FlushOptions struct{}
 
-func NewDefaultOptions() *Options                               { return &Options{} }
-func (o *Options) SetCreateIfMissing(bool)                      {}
-func (o *Options) SetCompression(CompressionType)               {}
-func (o *Options) SetCreateIfMissingColumnFamilies(bool)        {}
-func (o *Options) OptimizeUniversalStyleCompaction(uint64)      {}
-func (o *Options) SetAllowMmapReads(bool)                       {}
-func (o *Options) SetPrefixExtractor(*SliceTransform)           {}
-func (o *Options) SetPlainTableFactory(uint32, int, float64, uint) {}
-func (o *Options) OptimizeForPointLookup(uint64)                {}
-func (o *Options) SetMaxBackgroundJobs(int)                     {}
-func (o *Options) SetMaxWriteBufferNumber(int)                  {}
-func (o *Options) SetWriteBufferSize(uint64)                    {}
-func (o *Options) SetMinWriteBufferNumberToMerge(int)           {}
-func (o *Options) IncreaseParallelism(int)                      {}
-func (o *Options) SetDbLogDir(string)                           {}
-func (o *Options) EnableStatistics()                            {}
-func (o *Options) SetDeleteObsoleteFilesPeriodMicros(uint64)    {}
-func (o *Options) SetKeepLogFileNum(uint)                       {}
+func NewDefaultOptions() *Options                                    { return &Options{} }
+func (o *Options) SetCreateIfMissing(bool)                           {}
+func (o *Options) SetCompression(CompressionType)                    {}
+func (o *Options) SetCreateIfMissingColumnFamilies(bool)             {}
+func (o *Options) OptimizeUniversalStyleCompaction(uint64)           {}
+func (o *Options) SetAllowMmapReads(bool)                            {}
+func (o *Options) SetPrefixExtractor(*SliceTransform)                {}
+func (o *Options) SetPlainTableFactory(uint32, int, float64, uint)   {}
+func (o *Options) OptimizeForPointLookup(uint64)                     {}
+func (o *Options) SetMaxBackgroundJobs(int)                          {}
+func (o *Options) SetMaxWriteBufferNumber(int)                       {}
+func (o *Options) SetWriteBufferSize(uint64)                         {}
+func (o *Options) SetMinWriteBufferNumberToMerge(int)                {}
+func (o *Options) IncreaseParallelism(int)                           {}
+func (o *Options) SetDbLogDir(string)                                {}
+func (o *Options) EnableStatistics()                                 {}
+func (o *Options) SetDeleteObsoleteFilesPeriodMicros(uint64)         {}
+func (o *Options) SetKeepLogFileNum(uint)                            {}
 func (o *Options) SetBlockBasedTableFactory(*BlockBasedTableOptions) {}
-func (o *Options) Destroy()                                     {}
+func (o *Options) Destroy()                                          {}
 
 func NewFixedPrefixTransform(int) *SliceTransform               { return &SliceTransform{} }
 func NewDefaultBlockBasedTableOptions() *BlockBasedTableOptions { return &BlockBasedTableOptions{} }
@@ -80,12 +80,12 @@ type Op struct {
 
 // Store is the durable content behind a directory name.
 type Store struct {
-	mu   sync.Mutex
-	cfs  map[string]map[string][]byte
+	mu  sync.Mutex
+	cfs map[string]map[string][]byte
 	// fault injection
-	WritesSeen  int // atomic writes applied or refused since ResetFaults
-	CrashAfter  int // <0: never; otherwise writes with index >= CrashAfter are refused
-	Log         []Op
+	WritesSeen int // atomic writes applied or refused since ResetFaults
+	CrashAfter int // <0: never; otherwise writes with index >= CrashAfter are refused
+	Log        []Op
 }
 
 var (
@@ -140,10 +140,10 @@ func (s *Store) Snapshot(cf string) map[string][]byte {
 }
 
 type rec struct {
-	cf   string
-	key  string
-	val  []byte
-	del  bool
+	cf  string
+	key string
+	val []byte
+	del bool
 }
 
 func (s *Store) apply(recs []rec, batch bool) error {
@@ -217,8 +217,8 @@ func (db *DB) Delete(_ *WriteOptions, key []byte) error {
 func (db *DB) DeleteCF(_ *WriteOptions, cf *ColumnFamilyHandle, key []byte) error {
 	return db.s.apply([]rec{{cf: cf.name, key: string(key), del: true}}, false)
 }
-func (db *DB) Write(_ *WriteOptions, wb *WriteBatch) error { return db.s.apply(wb.recs, true) }
-func (db *DB) Flush(*FlushOptions) error                  { return nil }
+func (db *DB) Write(_ *WriteOptions, wb *WriteBatch) error      { return db.s.apply(wb.recs, true) }
+func (db *DB) Flush(*FlushOptions) error                        { return nil }
 func (db *DB) GetPropertyCF(string, *ColumnFamilyHandle) string { return "" }
 
 type WriteBatch struct{ recs []rec }
